@@ -26,7 +26,6 @@ import vf
 
 RDF_TYPE = "http://www.w3.org/1999/02/22-rdf-syntax-ns#type"
 PFX = {1: ("ex", "http://e/"), 2: ("foo", "http://foo/"), 3: ("bar", "http://bar/")}
-KNOWN_ID = "C03-template-keyword-a"
 
 PROP_RULE = ("a case is a history (random initial dataset with default and named graphs, empty graphs and blank nodes; "
              "1-30 requests over the six update forms with rejected and malformed requests interleaved) run on the "
@@ -377,14 +376,6 @@ def model_request(req):
     if kind == "alias" and entry not in LEGACY:
         return "RGarbage", False
     return "(RText %s %s)" % (decl, cupdate(req["op"])), parser_accepts(req["op"])
-
-
-def known_kw_a(req):
-    """The known class C03-template-keyword-a: a template (DATA block, DELETE/INSERT template, DELETE WHERE
-    quad block) carries the keyword `a` in predicate position (mirrors KV.Update.Proofs.known_kw_a)."""
-    op = req.get("op")
-    return bool(op) and req["kind"] in ("ok", "alias") and any(
-        kwa_in(q[0], False) or kwa_in(q[1], True) or kwa_in(q[2], False) for q in op["del"] + op["ins"])
 
 
 # ---------------------------------------------------------------------------------------------
@@ -762,8 +753,9 @@ def evaluate(ctx, binpath, cases, stream, report=True):
                           preamble="Open Scope N_scope.")
     verdicts = []
     failures = []
-    st = {"cases": len(cases), "steps": 0, "accepted": 0, "rejected": 0, "changed": 0, "known_class_steps_skipped": 0,
-          "impl_model_mismatches": 0, "spec_violations": 0, "bnode_steps": 0, "quoted_triple_steps": 0, "iso_budget_hit": 0}
+    st = {"cases": len(cases), "steps": 0, "accepted": 0, "rejected": 0, "changed": 0,
+          "impl_model_mismatches": 0, "spec_violations": 0, "bnode_steps": 0, "quoted_triple_steps": 0, "keyword_a_steps": 0,
+          "iso_budget_hit": 0}
     forms, kinds, entries = {}, {}, {}
     for c, (drv, args, creqs), im, mo in zip(cases, preps, impl, model):
         if report:
@@ -792,7 +784,6 @@ def evaluate(ctx, binpath, cases, stream, report=True):
         mm, ms = Matcher(in_data | seed_atoms), Matcher((), in_data)
         steps = im["steps"]
         verdict = None
-        in_known = False
         nontrivial = False
         prev = steps[0]
         # the initial state itself
@@ -813,8 +804,6 @@ def evaluate(ctx, binpath, cases, stream, report=True):
             if cur["r"][0] == "panic":
                 verdict = {"what": "panic", "step": k, "impl": cur["r"], "spec": True}
                 break
-            if known_kw_a(req) and (mcode == 0):
-                in_known = True
             pq, pg = [hx(q) for q in prev["q"]], [hx(g) for g in prev["g"]]
             changed = (iq != pq or ig != pg)
             if io[0] in ("ok",) or (io[0] == "hu" and io[1]):
@@ -829,8 +818,11 @@ def evaluate(ctx, binpath, cases, stream, report=True):
                 st["bnode_steps"] += 1
             if any(isinstance(x, tuple) for q in iq for x in q):
                 st["quoted_triple_steps"] += 1
-            # --- the Spec is the oracle (until a step of the known class has been executed)
-            if not in_known:
+            if mcode == 0 and req.get("op") and any(kwa_in(q[0], False) or kwa_in(q[1], True) or kwa_in(q[2], False)
+                                                    for q in req["op"]["del"] + req["op"]["ins"]):
+                st["keyword_a_steps"] += 1
+            # --- the Spec is the oracle (no known class: every contradiction is a violation)
+            if True:  # noqa
                 exp = expected_outcome(req["entry"], req["kind"], sacc, sins, sdel)
                 bad = None
                 if io != exp:
@@ -848,8 +840,6 @@ def evaluate(ctx, binpath, cases, stream, report=True):
                                "before_quads": prev["q"], "before_graphs": prev["g"]}
                     break
                 ms.prune({t for q in iq for x in q for t in atoms_of(x)} | {t for g in ig for t in atoms_of(g)})
-            else:
-                st["known_class_steps_skipped"] += 1
             # --- correspondence with the model
             expm = expected_outcome(req["entry"], req["kind"], mcode == 0, mins, mdel)
             badm = None
@@ -865,7 +855,7 @@ def evaluate(ctx, binpath, cases, stream, report=True):
                 verdict = {"what": "implementation and model differ (%s) but the Spec oracle accepts the implementation" % badm,
                            "step": k, "spec": False, "request": texts[k], "entry": req["entry"], "impl_outcome": cur["r"],
                            "model_outcome": expm, "impl_quads": cur["q"], "model_quads": mq, "impl_graphs": ig,
-                           "model_graphs": mcat, "impl_prefixes": cur["p"], "model_prefixes": mpfx, "in_known_class": in_known}
+                           "model_graphs": mcat, "impl_prefixes": cur["p"], "model_prefixes": mpfx}
                 break
             prev = cur
         if mm.budget_hit or ms.budget_hit:
@@ -968,6 +958,8 @@ def catalogue():
         mk("DWS", [[V(1), V(2), V(3), V(4)], [V(1), C(I(5)), V(5), None]], []),
         mk("IW", [], [[["T", V(1), C(I(5)), V(3)], C(I(7)), B(1), None], [V(3), C(I(7)), ["T", V(3), C(I(6)), B(1)], None]], w_p5),  # quoted templates
         mk("DWS", [[["T", V(1), V(2), V(3)], C(I(7)), V(4), None]], []),
+        mk("ID", [], [[C(I(1)), ["A"], C(I(2)), None], [C(I(1)), C(I(5)), ["T", C(I(2)), ["A"], C(I(3))], None]]),   # keyword `a` = rdf:type
+        mk("DWS", [[V(1), ["A"], V(3), None]], []),
         mk("ID", [], [[V(1), C(I(5)), C(I(3)), None]]),                                            # rejected: variable in DATA
         mk("DW", [[B(1), C(I(5)), V(3), None]], [], w_p5),                                         # rejected: blank node in DELETE
     ]
@@ -1005,37 +997,6 @@ def legality_battery():
 EX_INIT = {"init": [[I(1), I(5), I(2), None], [I(1), I(5), P(1), None], [I(2), I(6), I(1), I(8)], [["N", 0, 1], I(5), I(3), None],
                     [I(2), I(5), I(8), None]],
            "graphs": [I(9)], "seed": [["N", 2, 1]]}
-
-
-WITNESS = {"init": [], "graphs": [], "seed": [],
-           "reqs": [{"op": {"form": "ID", "del": [], "ins": [[["C", I(1)], ["A"], ["C", I(2)], None]], "where": [[]]},
-                     "entry": "xu", "decl": [], "kind": "ok", "text": "INSERT DATA { <http://e/i1> a <http://e/i2> }"},
-                    {"op": {"form": "DWS", "del": [[["C", I(1)], ["A"], ["V", 1], None]], "ins": [],
-                            "where": [[[None, [[["C", I(1)], ["C", I(0)], ["V", 1]]]]]]},
-                     "entry": "xu", "decl": [], "kind": "ok", "text": "DELETE WHERE { <http://e/i1> a ?x1 }"}]}
-
-
-def replay_known(ctx, binpath):
-    """Replays the witness of the open finding; prints KNOWN-FINDING if it still fails."""
-    for k in ctx.known_findings():
-        if k["id"] != KNOWN_ID:
-            continue
-        w = k.get("witness", {}).get("case") or WITNESS
-        drv, _, _ = prepare(w, ctx.rng)
-        im = ctx.run_impl(binpath, [drv])[0]
-        try:
-            q1 = im["steps"][1]["q"]
-            q2 = im["steps"][2]["q"]
-            stored_word = any(q[1] == "a" for q in q1)
-            not_deleted = len(q2) == 1 and im["steps"][2]["r"][:3] == ["ok", 0, 0]
-        except Exception:  # noqa
-            stored_word, not_deleted = False, False
-        if stored_word and not_deleted:
-            ctx.known(KNOWN_ID, "`INSERT DATA { <http://e/i1> a <http://e/i2> }` stores the predicate as the word `a` instead of rdf:type "
-                                "(quad %s); the following `DELETE WHERE { <http://e/i1> a ?x1 }` reports deleted 0 and leaves it" % (q1[0],))
-        else:
-            ctx.log("known finding %s no longer reproduces on its witness (implementation: %s)" % (KNOWN_ID, json.dumps(im)[:300]))
-            ctx.stream("known_findings", not_reproduced=1)
 
 
 def load_corpus():
@@ -1077,7 +1038,6 @@ def harness(ctx):
 def run(ctx):
     ctx.coq("Update", "C03.v")
     binpath = harness(ctx)
-    replay_known(ctx, binpath)
     # corpus first
     corpus = load_corpus()
     if corpus:
@@ -1101,7 +1061,8 @@ def run(ctx):
     v = evaluate(ctx, binpath, rnd, "random")
     prep0 = prepare(rnd[0], ctx.rng)[0]
     ctx.sample({"init": prep0["init"], "requests": [o.get("t", o) for o in prep0["ops"]][:6]})
-    # histories inside the known class (keyword `a` in templates): correspondence with the model only after the first such step
+    # histories rich in the keyword `a` in predicate position of templates, also inside quoted triples (the repaired finding
+    # C03-template-keyword-a): a recurrence is a violation
     n2 = 600 if ctx.thorough else 80
     kwa = [gen_case(ctx.rng, nmax=12, kw_a=True) for _ in range(n2)]
     evaluate(ctx, binpath, kwa, "random_keyword_a")
